@@ -164,7 +164,11 @@ func (self *Compiler) compileFn(node ast.AnalyzedFunctionDefinition) (annotation
 	cleanupLabel := self.mangleLabel("cleanup")
 	self.CurrFn().CleanupLabel = cleanupLabel
 
+	// The body starts outside of any `try` block, also if this function is a lambda which is defined in one.
+	outerTryDepth := self.tryDepth
+	self.tryDepth = 0
 	self.compileBlock(node.Body, false)
+	self.tryDepth = outerTryDepth
 
 	varCnt := int64(self.CurrFn().CntVariables)
 	self.CurrFn().Instructions[mpIdx] = newOneIntInstruction(Opcode_AddMempointer, varCnt)
